@@ -251,3 +251,40 @@ def blame_step(p, msg):
     if m and int(m.group(1)) < len(p.steps):
         return p.steps[int(m.group(1))]
     return None
+
+
+# ----------------------------------------------------------------------------- large payloads / buffer boundaries (WireBig.tla)
+
+def export_big(pad, timeout=900):
+    wd = scratch("verif-wb-")
+    out = os.path.join(wd, "big.ndjson")
+    tlc_eval("WireBig", timeout=timeout, workdir=wd, env={"VERIF_OUT": out, "VERIF_PAD": str(pad), "VERIF_SCALE": "1"})
+    if not os.path.exists(out):
+        raise Inconclusive("WireBig produced no export")
+    recs = [json.loads(l) for l in open(out) if l.strip()]
+    shutil.rmtree(wd, ignore_errors=True)
+    return recs
+
+
+class BigPackage(Package):
+    """One protocol whose steps are the records of WireBig.tla; the values of a run come from the export for one pad length."""
+
+    def __init__(self, root, recs):
+        self.langs = ("py", "cpp")
+        self.idx = 0
+        self.ns, self.ns_cpp, self.proto = "Wbig", "wbig", "P"
+        self.root = os.path.join(root, "pkgbig")
+        self.steps = [{"name": r["name"], "t": r["t"], "stream": r["stream"], "cases": [], "jcases": []} for r in recs]
+        self.n_streams = sum(1 for s in self.steps if s["stream"])
+        self.ndjson = True
+        self.ok = False
+        self.problem = None
+
+    def vals_for(self, recs):
+        vals = []
+        for r in recs:
+            if r["stream"]:
+                vals.append(("stream", [{"enc_b": [bytes(e)], "json": [j]} for e, j in zip(r["enc"], r["json"])]))
+            else:
+                vals.append(("value", {"enc_b": [bytes(r["enc"][0])], "json": [r["json"][0]]}))
+        return vals
